@@ -3,18 +3,8 @@
 //!        hv replay --property C08 --file path [--root /verif]
 //!        hv selftest
 
-mod bigint;
-mod refmath;
-#[macro_use]
-mod runner;
-mod gen;
-mod sched;
-mod shadow;
-mod prog;
-mod zoo;
-mod props;
-
-use runner::*;
+use hv::runner::*;
+use hv::{bigint, props, refmath};
 
 fn arg(args: &[String], name: &str) -> Option<String> {
     args.iter().position(|a| a == name).and_then(|i| args.get(i + 1).cloned())
@@ -49,6 +39,23 @@ fn main() {
                     ReplayOutcome::Known(k, what) => { println!("KNOWN-FINDING: property={property} {what} [{k}]"); std::process::exit(0) }
                     ReplayOutcome::Fail(_) => { println!("VIOLATION property={property} replay={file}"); std::process::exit(1) }
                     ReplayOutcome::Error(e) => { eprintln!("hv: {e}"); std::process::exit(2) }
+                }
+            }
+        }
+        "fuzzcase" => {
+            // decode a fuzzer input (bytes) through the sub-check's strategy, print the case and judge it
+            let property = arg(&args, "--property").unwrap_or_default(); let sub = arg(&args, "--sub").unwrap_or_default();
+            let file = arg(&args, "--file").unwrap_or_default();
+            let data = std::fs::read(&file).unwrap_or_else(|e| { eprintln!("hv: {e}"); std::process::exit(2) });
+            let def = match props::get(&property) { Some(d) => d, None => { eprintln!("hv: unknown property {property}"); std::process::exit(2) } };
+            let s = match def.subs.iter().find(|s| s.name == sub) { Some(s) => s, None => { eprintln!("hv: unknown sub-check {sub}"); std::process::exit(2) } };
+            match s.fuzz.as_ref().and_then(|f| f(&data, Tier::Quick)) {
+                None => { println!("input does not decode to a case"); std::process::exit(0) }
+                Some((case, Verdict::Pass(_))) => { println!("PASS case={}", serde_json::to_string(&shorten(case)).unwrap_or_default()); std::process::exit(0) }
+                Some((case, Verdict::Fail { msg, key })) => {
+                    let out = arg(&args, "--out");
+                    if let Some(o) = &out { let _ = std::fs::write(o, serde_json::to_string_pretty(&serde_json::json!({"property": property, "subcheck": sub, "case": case, "message": msg, "key": key})).unwrap()); }
+                    println!("FAIL {msg}"); std::process::exit(1)
                 }
             }
         }
